@@ -262,6 +262,35 @@ class C20(Prop):
         ys = [rng.choice([1.0, 2.0, -1.0, 0.5]) for _ in range(n)]
         return {'formula': f, 'data': {'x': xs, 'y': ys}, 'long': True}
 
+    def gen_wide_tail(self, rng):
+        """A wide window (65..200 samples, not a multiple of a power of two) whose only violating samples lie in its
+        last few positions (or its first few): what a block-wise scan of the window must not miss."""
+        N, V, C = lang.N, lang.V, lang.C
+        w = rng.choice([65, 70, 99, 100, 127, 130, 150, 200])
+        a = rng.choice([0, 0, 0, 3])
+        n = a + w + rng.randint(1, 12)
+        px = N('gt', V('x'), C(0.0))
+        tail = rng.random() < 0.7
+        bad = sorted(rng.sample(range(a + w - min(5, w % 64 or 5), a + w + 1) if tail else range(a, a + 4), rng.randint(1, 2)))
+        xs = [rng.choice([1.0, 2.0, 3.0]) for _ in range(n)]
+        for i in bad:
+            if i < n:
+                xs[i] = rng.choice([0.0, -1.0])
+        r = rng.random()
+        if r < 0.4:
+            f = N('always', px, ivl=(a, a + w))
+        elif r < 0.6:
+            f = N('not', N('eventually', N('leq', V('x'), C(0.0)), ivl=(a, a + w)))
+        elif r < 0.8:
+            f = N('and', N('always', px, ivl=(a, a + w)), N('geq', V('y'), C(-5.0)))
+        else:
+            # the past flavour, reached from time 0 through a punctual look-ahead
+            f = N('eventually', N('historically', px, ivl=(0, w)), ivl=(a + w, a + w))
+        data = {'x': xs}
+        if 'y' in lang.variables(f):
+            data['y'] = [rng.choice([1.0, 0.0, 2.0]) for _ in range(n)]
+        return {'formula': f, 'data': data, 'long': True, 'wide_tail': True}
+
     def gen_polarity(self, rng):
         """Every Boolean connective under both polarities over a range: `always(not P)`, `eventually(not P)`,
         `always(P implies r)`, `always(r or not P)`, `not eventually P` with P = p(x) OP q(y) - violated at 0 because P
@@ -354,6 +383,8 @@ class C20(Prop):
             return self.gen_overflow(rng)
         if 0.64 <= r < 0.70:
             return self.gen_shifted_terms(rng)
+        if 0.70 <= r < 0.715:
+            return self.gen_wide_tail(rng)
         if r < 0.06:
             return self.gen_edge(rng)
         if r > 0.9:
@@ -445,6 +476,8 @@ class C20(Prop):
         v.info['class:' + ('violated' if rho0 < 0 else 'satisfied')] = 1
         if case.get('shifted_terms'):
             v.info['class:shifted-term-in-predicate'] = 1
+        if case.get('wide_tail'):
+            v.info['class:wide-window-violated-at-its-end'] = 1
         known = self.known_for(f)
         try:
             m.explain()
